@@ -36,8 +36,8 @@ TRUSTED = [
     'are closed under the global context',
     'premise of the gaussian-profile theorems: erf has derivative 2/sqrt(pi) exp(-x^2) (scipy.special.erf is '
     'external code; C10_erf_exists shows the premise is satisfiable)',
-    'translator/py2coq.py: per-element reading of the numpy formulas (58 kernels of G_pdf.v, each pinned by a '
-    'characterising lemma K_* or used definitionally)',
+    'translator/py2coq.py: per-element reading of the numpy formulas (80 kernels of G_pdf.v incl. 21 statement-skeleton pins, each '
+    'pinned by a characterising lemma K_* or used definitionally)',
     'hand model M_Pdf.v of masks / reductions / array plumbing, validated by this correspondence; '
     'Livetime.is_on and get_uptime_intervals_between enter through their closed forms, proved equal to the C14 '
     'model of the code on integer-valued inputs (P_PdfBridge.v)',
@@ -1339,6 +1339,10 @@ def time_history_case(ctx, env, case, lines=None, checks=None):
         # (a) time_flux_profile setter
         newp = mk_profile(env, dict(rows[0], kind=kind))
         sigC.time_flux_profile = newp
+        _, twS, _ = fresh_vals(ivs, newp, times)
+        if not same(float(sigC._S), float(twS._S), 1e-9):
+            ctx.violation('SignalTimePDF.time_flux_profile', 'stale-S-after-setter',
+                          f'_S = {float(sigC._S)!r} right after the setter, a fresh PDF has {float(twS._S)!r}', case=cdesc)
         cmp_obj('SignalTimePDF.time_flux_profile', 'stale-normalisation-after-setter',
                 call_sig(sigC, make_tdm_k(times, 1), env.rec), ivs, newp, times)
         bkgC.time_flux_profile = mk_profile(env, dict(rows[0], kind=kind))
@@ -1351,6 +1355,10 @@ def time_history_case(ctx, env, case, lines=None, checks=None):
         # (b) livetime setter: drop the first interval / shrink the last one
         ivs2 = [(l, u) for (l, u) in ivs[1:]] or [(ivs[0][0], 0.5 * (ivs[0][0] + ivs[0][1]))]
         sigC.livetime = Livetime(np.array(ivs2, dtype=np.float64).reshape((len(ivs2), 2)))
+        _, twS, _ = fresh_vals(ivs2, sigC.time_flux_profile, times)
+        if not same(float(sigC._S), float(twS._S), 1e-9):
+            ctx.violation('SignalTimePDF.livetime', 'stale-S-after-setter',
+                          f'_S = {float(sigC._S)!r} right after the setter, a fresh PDF has {float(twS._S)!r}', case=cdesc)
         cmp_obj('SignalTimePDF.livetime', 'stale-normalisation-after-setter',
                 call_sig(sigC, make_tdm_k(times, 1), env.rec), ivs2, sigC.time_flux_profile, times)
         bkgC.livetime = Livetime(np.array(ivs2, dtype=np.float64).reshape((len(ivs2), 2)))
